@@ -714,7 +714,14 @@ def run(run: Run):
     rng = run.rng
     for k in KINDS:
         explore({}, [gen_msg(rng, k)], 'single')
-    n = 300 if run.tier == "quick" else 3000
+    # every message kind applied to states with >= 2 entries in every container (seed-independent), then once more
+    for pi, prefix in enumerate(RICH_PREFIXES):
+        for a in alphabet():
+            explore({}, prefix + [a], f'rich{pi}')
+            if run.tier != 'quick':
+                for b in alphabet()[::5]:
+                    explore({}, prefix + [a, b], f'rich{pi}+2')
+    n = 150 if run.tier == "quick" else 3000
     for i in range(n):
         explore(rng.choice(BLOCKMAPS), gen_seq(rng), 'random')
 
@@ -741,10 +748,10 @@ def run(run: Run):
         run.add_broken(e.obligation, e.detail)
 
 
-def small_scope():
-    """every ordered pair over a compact alphabet: one or two fixed instances of every message kind on room r0 / users me, u1"""
+def alphabet():
+    """one or two fixed instances of every message kind on room r0 / users me, u1, u2"""
     st = [5, 1, 7, 2]
-    alpha = [
+    return [
         ['RoomList', ['r0'], [], [], []], ['RoomList', [], ['r0'], ['r0'], ['r0']], ['RoomList', [], [], [], []],
         ['JoinRoom', 'r0', [['u1', 2, st]], None, []], ['JoinRoom', 'r0', [['me', 1, st]], 'u1', ['me']], ['LeaveRoom', 'r0'],
         ['UserJoined', 'r0', 'u1', 1, st], ['UserLeft', 'r0', 'u1'], ['MemberGrant', 'r0', 'u1'], ['MemberRevoke', 'r0', 'u1'],
@@ -755,7 +762,25 @@ def small_scope():
         ['PrivateChat', 'u1', 't0'], ['UserStatus', 'u1', 2, True], ['UserStatus', 'u1', 2, False], ['UserStatus', 'u1', 1, False],
         ['UserStats', 'u1', st], ['AddUser', 'u1', True, 1, st], ['AddUser', 'u1', False, 0, None], ['PrivUsers', ['u1']], ['PrivUsers', []],
         ['AddPrivUser', 'u1'],
+        ['JoinRoom', 'r0', [['u1', 2, st], ['u2', 0, st], ['me', 2, st]], None, []],
     ]
+
+
+# states with something in every container of room r0 (several users, members, operators, tickers, owner, privileged users):
+# the compositions the property is about start from such states, not from the empty model
+RICH_PREFIXES = [
+    [['JoinRoom', 'r0', [['u1', 2, [5, 1, 7, 2]], ['u2', 1, [0, 0, 0, 0]], ['me', 2, [1, 1, 1, 1]]], 'u2', ['me', 'u1', 'u2']],
+     ['Members', 'r0', ['me', 'u1', 'u2']], ['Tickers', 'r0', [['u1', 't0'], ['u2', 't1'], ['me', 't2']]], ['PrivUsers', ['u1', 'u2']]],
+    [['RoomList', ['r0'], [], [], []], ['UserJoined', 'r0', 'u1', 2, [5, 1, 7, 2]], ['UserJoined', 'r0', 'u2', 1, [0, 0, 0, 0]],
+     ['UserStatus', 'u1', 2, True]],
+    [['RoomList', [], ['r0'], ['r0'], ['r0']], ['Operators', 'r0', ['me', 'u1']], ['Members', 'r0', ['me', 'u1']],
+     ['JoinRoom', 'r0', [['u1', 2, [5, 1, 7, 2]], ['u2', 1, [0, 0, 0, 0]]], 'me', ['me', 'u1']]],
+]
+
+
+def small_scope():
+    """every ordered pair over the compact alphabet"""
+    alpha = alphabet()
     for blocked in ({}, {'u1': 'IGNORE'}):
         for a in alpha:
             yield blocked, [a]
